@@ -46,6 +46,9 @@ type FormA struct {
 	Shape  string   `json:"shape,omitempty"`  // how the merged body is assembled: files left right pairs base+1 one-at-a-time
 	Twice  bool     `json:"twice,omitempty"`  // decode the same body a second time
 	Expand bool     `json:"expand,omitempty"` // wrap in dynblock.Expand
+	// FreeRefs: the dynamic rewrite of this form let free attributes (BlockAttrsSpec /
+	// remain map) of generated blocks refer to the iterator
+	FreeRefs bool `json:"free_refs,omitempty"`
 }
 
 // OverlayA is one independent extension of the layered base: the overlay file and
@@ -185,7 +188,9 @@ func genA(t *rapid.T) CaseA {
 		// 1. dynamic
 		var body cfggen.RBody
 		if !c.NilCtx && rapid.IntRange(0, 9).Draw(t, "dyn") >= 5 {
+			ds.FreeRefs = rapid.Bool().Draw(t, "free-attribute-refs")
 			body = ds.BuildBody(t, &c.Schema, &c.Inst, 70)
+			f.FreeRefs = cfggen.FreeRefs(body) > 0
 			if body.HasDyn() {
 				steps["dynamic"] = true
 				f.Expand = true
@@ -274,6 +279,7 @@ type outcome struct {
 	goDiag   string
 	twice    string // non-empty: a second decode of the same body disagreed with the first
 	styles   []styleRes
+	just     *styleRes
 }
 
 func evalCtx(c *CaseA) *hcl.EvalContext {
@@ -373,7 +379,7 @@ func decodeBody(body hcl.Body, ctx *hcl.EvalContext, spec hcldec.Spec, st reflec
 	if o.goErr {
 		o.goDiag = gd.Error()
 	}
-	o.styles = decodeStyles(env, body, ctx, expand)
+	o.styles, o.just = decodeStyles(env, body, ctx)
 	return o
 }
 
@@ -556,7 +562,8 @@ func checkA(c CaseA) *core.Violation {
 		}
 	}
 
-	for i := 1; i < len(c.Forms); i++ {
+	outs := make([]*outcome, len(c.Forms))
+	compare := func(i int) *core.Violation {
 		f := &c.Forms[i]
 		o := decodeForm(&c, f, spec, st, env)
 		sig := stepsSig(f)
@@ -567,8 +574,9 @@ func checkA(c CaseA) *core.Violation {
 			// the JSON syntax has no way to write "a block with a label missing": label
 			// levels are told apart from the body by the schema alone (json/spec.md,
 			// "Blocks"), so such a text denotes a different configuration
-			continue
+			return nil
 		}
+		outs[i] = &o
 		show := func() string {
 			var b strings.Builder
 			for _, fl := range f.Files {
@@ -580,6 +588,12 @@ func checkA(c CaseA) *core.Violation {
 		fault := c.Fault
 		if fault == "" {
 			fault = "valid"
+		}
+		if f.FreeRefs {
+			// one input class, one signature per decoder and kind of disagreement
+			// (not per step combination, fault kind or spec depth)
+			sig = "iterator-ref-in-free-attribute-of-generated-block"
+			fault = "any-instance"
 		}
 		// error-freeness is preserved, per decoder
 		if o.decErr != ref.decErr {
@@ -603,6 +617,11 @@ func checkA(c CaseA) *core.Violation {
 		// and the reference (has-errors and result), and with the complete decode of
 		// the same body where both are free of errors
 		if ssig, msg := sameStyles(ref.styles, o.styles); ssig != "" {
+			if f.FreeRefs {
+				for _, d := range []string{"|depth=0", "|depth=1", "|depth=2"} {
+					ssig = strings.Replace(ssig, d, "", 1)
+				}
+			}
 			return core.V(fmt.Sprintf("style|%s|%s|%s", ssig, sig, fault),
 				"consumer style %s: reference vs form %v: %s\nplan %s (hcldec spec cut %d levels down)\n%s", ssig, f.Steps, clipS(msg, 2500), planText(c.Plan), c.PDDepth, show())
 		}
@@ -610,9 +629,69 @@ func checkA(c CaseA) *core.Violation {
 			return core.V(fmt.Sprintf("style|%s|differs-from-complete-decode|%s", sname, sig),
 				"form %v: %s\nplan %s (hcldec spec cut %d levels down)\n%s", f.Steps, clipS(msg, 2500), planText(c.Plan), c.PDDepth, show())
 		}
+		return nil
+	}
+	// forms whose dynamic rewrite has iterator references in free attributes of
+	// generated blocks are looked at after all the others (layered configurations
+	// included), then the JustAttributes-on-remainders style
+	var later []int
+	for i := 1; i < len(c.Forms); i++ {
+		if c.Forms[i].FreeRefs {
+			later = append(later, i)
+			continue
+		}
+		if v := compare(i); v != nil {
+			return v
+		}
 	}
 	if c.Layers != nil && c.Fault != "missing-label" {
-		return checkLayers(&c, spec, st, env)
+		if v := checkLayers(&c, spec, st, env); v != nil {
+			return v
+		}
+	}
+	for _, i := range later {
+		if v := compare(i); v != nil {
+			return v
+		}
+	}
+	return checkJust(&c, &ref, outs)
+}
+
+// checkJust: the walker that reads the remainder of attribute-only bodies with
+// JustAttributes (gohcl map / hcl.Attributes remain fields do this) agrees between
+// the reference and every form.
+func checkJust(c *CaseA, ref *outcome, outs []*outcome) *core.Violation {
+	const name = "style|partial-content-then-just-attributes|"
+	rj := ref.just
+	if rj == nil {
+		return nil
+	}
+	src := c.Forms[0].Files[0].Src
+	if rj.reappear > 0 {
+		return core.V(name+"consumed-attribute-reappears|native", "reference form: the remainder's JustAttributes reports attributes taken in the first stage again: %q\nplan %s\n%s", rj.reNames, planText(c.Plan), src)
+	}
+	if c.Fault == "" && rj.err {
+		return core.V(name+"conforming-instance-rejected|native", "reference form rejected: %s\nplan %s\n%s", clipS(rj.diag, 1500), planText(c.Plan), src)
+	}
+	if rj.cross != "" {
+		return core.V(name+"differs-from-complete-decode|native", "reference form: %s\nplan %s\n%s", clipS(rj.cross, 2500), planText(c.Plan), src)
+	}
+	for i := 1; i < len(c.Forms); i++ {
+		if outs[i] == nil {
+			continue
+		}
+		f := &c.Forms[i]
+		cls := "plain-body"
+		if f.Expand {
+			cls = "through-dynblock-expand"
+		}
+		if kind, msg := sameJust(rj, outs[i].just); kind != "" {
+			var b strings.Builder
+			for _, fl := range f.Files {
+				fmt.Fprintf(&b, "--- %s (format=%v)\n%s\n", fl.Name, fl.Format, fl.Src)
+			}
+			return core.V(name+kind+"|"+cls, "reference vs form %v (expand=%v): %s\nplan %s\n%s--- reference\n%s", f.Steps, f.Expand, clipS(msg, 2500), planText(c.Plan), clipS(b.String(), 5000), clipS(src, 2000))
+		}
 	}
 	return nil
 }
@@ -821,7 +900,7 @@ func classifyA(c CaseA) core.Class {
 func TestC19a(t *testing.T) {
 	core.Run(t, core.Spec[CaseA]{
 		Property: "C19", Sub: "a",
-		Rule: "generated hcldec spec / gohcl struct type (attributes: string number bool list set map object tuple any; blocks: single list set tuple with 0-8 labels (BlockLabelSpec / label fields), map and object-map with 1-8 LabelNames, attrs; labels and map keys drawn from representation classes (starting with // # /*, equal to //, with quotes, backslashes, newlines, tabs, ${ %{, dots, brackets, spaces, separators, empty, long, non-ASCII, JSON words, schema names, numeric, case variants); up to 4 sibling blocks that often share a label prefix (typically all but the last label); nesting<=3) + conforming or single-fault instance, rendered as plain native text (reference) and 2-5 forms composing: JSON syntax (own emitter from json/spec.md), shuffled items, comments/odd whitespace/CRLF, hclwrite.Format, split into 2-9 files merged with hcl.MergeFiles or with nested / incremental hcl.MergeBodies (left- and right-nested, merge of merges, base grown one body at a time; attributes in exactly one file, per-type block order kept; some bodies decoded twice), layered configurations (one base of 1-9 files and 2-3 independent overlays merged onto the same base body, all merged bodies built before any is decoded, or decoded right after building as control, each compared with its own single-file text), runs of blocks folded into dynamic blocks (tuple/object/variable for_each, labels, custom iterator, nested, inherited iterator) expanded with dynblock.Expand. Oracle: every form agrees with the reference on has-errors and on the decoded value for hcldec.Decode and gohcl.DecodeBody, and the reference of a conforming instance decodes to the instance. Non-trivial: >=1 repeated or labelled block and a form composing >=2 rewrites; distinct = (valid/faulty, nesting>=2, widest rewrite combination of the case). DECODER DIMENSION (styles_test.go): every form, the reference included, is additionally read through two-stage consumer styles driven by a generated plan (cfggen.SplitP: for every body of the schema, recursively, which attribute names / block types are asked for first; the rest comes from the remaining body): (pd) hcldec.PartialDecode with the first half of the object spec + hcldec.Decode of the remainder with the second half, at the top level or on the bodies of the blocks 1-2 levels down; (walk) a generic walker that at EVERY block level calls body.PartialContent(subset) and then remain.Content(rest) - or remain.PartialContent(rest) followed by an empty Content call on what is left, or remain.JustAttributes for attribute-only bodies of forms not wrapped in dynblock.Expand - and evaluates the attribute expressions of both stages; (remain) gohcl.DecodeBody into reflect.StructOf types whose second half sits in a struct field tagged yaotl:\",remain\"; (later) the same with an hcl.Body remain field decoded by a second DecodeBody call. Oracle clauses: each style agrees between reference and form on has-errors and on its result; a conforming instance is accepted by every style; where free of errors a style's result equals the complete decode of the same body (joined halves == hcldec.Decode, two-stage walk == one-stage walk, remain structs joined == plain gohcl struct). Class label partial-decode-inside-generated-block-with-iterator-reference-in-remainder: a form whose dynamic rewrite puts an iterator reference (attribute, nested dynamic, static child holding one) of a GENERATED block into the plan's remainder",
+		Rule: "generated hcldec spec / gohcl struct type (attributes: string number bool list set map object tuple any; blocks: single list set tuple with 0-8 labels (BlockLabelSpec / label fields), map and object-map with 1-8 LabelNames, attrs; labels and map keys drawn from representation classes (starting with // # /*, equal to //, with quotes, backslashes, newlines, tabs, ${ %{, dots, brackets, spaces, separators, empty, long, non-ASCII, JSON words, schema names, numeric, case variants); up to 4 sibling blocks that often share a label prefix (typically all but the last label); nesting<=3) + conforming or single-fault instance, rendered as plain native text (reference) and 2-5 forms composing: JSON syntax (own emitter from json/spec.md), shuffled items, comments/odd whitespace/CRLF, hclwrite.Format, split into 2-9 files merged with hcl.MergeFiles or with nested / incremental hcl.MergeBodies (left- and right-nested, merge of merges, base grown one body at a time; attributes in exactly one file, per-type block order kept; some bodies decoded twice), layered configurations (one base of 1-9 files and 2-3 independent overlays merged onto the same base body, all merged bodies built before any is decoded, or decoded right after building as control, each compared with its own single-file text), runs of blocks folded into dynamic blocks (tuple/object/variable for_each, labels, custom iterator, nested, inherited iterator) expanded with dynblock.Expand. Oracle: every form agrees with the reference on has-errors and on the decoded value for hcldec.Decode and gohcl.DecodeBody, and the reference of a conforming instance decodes to the instance. Non-trivial: >=1 repeated or labelled block and a form composing >=2 rewrites; distinct = (valid/faulty, nesting>=2, widest rewrite combination of the case). DECODER DIMENSION (styles_test.go): every form, the reference included, is additionally read through two-stage consumer styles driven by a generated plan (cfggen.SplitP: for every body of the schema, recursively, which attribute names / block types are asked for first; the rest comes from the remaining body): (pd) hcldec.PartialDecode with the first half of the object spec + hcldec.Decode of the remainder with the second half, at the top level or on the bodies of the blocks 1-2 levels down; (walk) a generic walker that at EVERY block level calls body.PartialContent(subset) and then remain.Content(rest) - or remain.PartialContent(rest) followed by an empty Content call on what is left - and evaluates the attribute expressions of both stages; (just) the same walker reading the remainder of every attribute-only body with remain.JustAttributes (what a gohcl map / hcl.Attributes remain field does), on every form, bodies wrapped in dynblock.Expand included: the remainder must not report the attributes of the first stage again and must see the iterators; (remain) gohcl.DecodeBody into reflect.StructOf types whose second half sits in a struct field tagged yaotl:\",remain\"; (later) the same with an hcl.Body remain field decoded by a second DecodeBody call. Oracle clauses: each style agrees between reference and form on has-errors and on its result; a conforming instance is accepted by every style; where free of errors a style's result equals the complete decode of the same body (joined halves == hcldec.Decode, two-stage walk == one-stage walk, remain structs joined == plain gohcl struct). Class label partial-decode-inside-generated-block-with-iterator-reference-in-remainder: a form whose dynamic rewrite puts an iterator reference (attribute, nested dynamic, static child holding one) of a GENERATED block into the plan's remainder. Dynamic rewrites of half of the forms (cfggen.DynState.FreeRefs) let the free attributes (kind attrs: hcldec.BlockAttrsSpec / gohcl remain map, read with JustAttributes) of generated blocks refer to the iterator like any other attribute (stat dyn:iterator-ref-in-free-attribute); such forms are compared after all the others under the step signature iterator-ref-in-free-attribute-of-generated-block, and the just style last (signatures style|partial-content-then-just-attributes|<kind>|plain-body or through-dynblock-expand)",
 		Gen:  genA, Check: checkA, Classify: classifyA,
 		Assumptions: []string{
 			"go-cty (conversion, number parsing, set ordering) is the trusted base of the expected values",
